@@ -223,6 +223,7 @@ def run(ctx):
         if got != ans["table"]:
             ctx.fail("outcome differs from the documented classification table", meta, got, ans["table"])
     descriptions(ctx)
+    reply_histories(ctx)
     ctx.exhaustive = True
     ctx.sample(metas[0])
     ctx.sample(metas[len(metas) // 2])
@@ -268,6 +269,61 @@ def descriptions(ctx):
                 if got != exp:
                     ctx.fail("the status and description of a non-200 reply are not reported as they were delivered", meta,
                              got, exp)
+
+
+def reply_histories(ctx):
+    """What a reply is classified as does not depend on the replies the same client processed before: every reply of
+    a sequence over ONE client (injected, from the transport, through one RequestContext) gets the outcome a fresh
+    client gives for it."""
+    import suds.transport
+    rng = ctx.rng
+    cells = [(b, st) for b in BODIES for st in (None, 200, 500, 404, 202)]
+    for style in ("wrapped", "rpc"):
+        w = make_wsdl(style)
+        for faults, retxml in itertools.product((True, False), repeat=2):
+            fresh = {}
+
+            def expect(b, st):
+                if (b, st) not in fresh:
+                    inj = {"reply": body_bytes(b, style)}
+                    if st is not None:
+                        inj["status"] = st
+                    c0 = wsdlkit.client(w, faults=faults, retxml=retxml)
+                    fresh[(b, st)] = outcome_of(lambda: c0.service.f("x", __inject=inj))
+                return fresh[(b, st)]
+            for path in ("inject", "transport", "reqctx"):
+                for _ in range(ctx.pick(3, 40)):
+                    seq = [rng.choice(cells) for _n in range(rng.randint(2, 5))]
+                    if rng.random() < 0.7:
+                        # a reply with content, then an empty one
+                        seq[0] = (rng.choice(["normal", "fault11", "faultDetail"]), rng.choice([None, 200, 500]))
+                        seq[1] = ("empty", rng.choice([None, 200, 500, 202]))
+                    queue = []
+                    tr = wsdlkit.RecordingTransport(reply=lambda request: queue.pop(0))
+                    c = wsdlkit.client(w, faults=faults, retxml=retxml, transport=tr)
+                    cn = wsdlkit.client(w, faults=faults, retxml=retxml, nosend=True)
+                    rc = cn.service.f("x")
+                    for i, (b, st) in enumerate(seq):
+                        data = body_bytes(b, style)
+                        meta = {"stream": "reply-histories", "style": style, "faults": faults, "retxml": retxml, "path": path,
+                                "history": [list(x) for x in seq[:i + 1]]}
+                        ctx.case(common.canon(meta), True)
+                        if path == "inject":
+                            inj = {"reply": data}
+                            if st is not None:
+                                inj["status"] = st
+                            got = outcome_of(lambda: c.service.f("x", __inject=inj))
+                        elif path == "transport":
+                            queue[:] = [suds.transport.Reply(200, {}, data) if st is None else
+                                        suds.transport.TransportError("err", st, io.BytesIO(data))]
+                            got = outcome_of(lambda: c.service.f("x"))
+                        else:
+                            got = outcome_of((lambda: rc.process_reply(data)) if st is None else
+                                             (lambda: rc.process_reply(data, st, "desc")))
+                        if got != expect(b, st):
+                            ctx.fail("the outcome of a reply depends on the replies the client processed before", meta, got,
+                                     expect(b, st))
+                            break
 
 
 def widen(ctx):
